@@ -116,14 +116,37 @@ func (mbox *Mailbox) appendLiteral(r imap.LiteralReader, options *imap.AppendOpt
 	return mbox.appendBytes(buf.Bytes(), options), nil
 }
 
-func (mbox *Mailbox) copyMsg(msg *message) *imap.AppendData {
-	return mbox.appendBytes(msg.buf, &imap.AppendOptions{
+// copyMsgLocked appends a copy of a message from another mailbox. Both
+// mailboxes must be locked, see lockMailboxes.
+func (mbox *Mailbox) copyMsgLocked(msg *message) *imap.AppendData {
+	return mbox.appendBytesLocked(msg.buf, &imap.AppendOptions{
 		Time:  msg.t,
 		Flags: msg.flagList(),
 	})
 }
 
+// lockMailboxes locks two distinct mailboxes. To avoid deadlocks between
+// sessions copying or moving messages in opposite directions, the mutexes are
+// always acquired in the same order.
+func lockMailboxes(a, b *Mailbox) (unlock func()) {
+	if a.uidValidity > b.uidValidity {
+		a, b = b, a
+	}
+	a.mutex.Lock()
+	b.mutex.Lock()
+	return func() {
+		b.mutex.Unlock()
+		a.mutex.Unlock()
+	}
+}
+
 func (mbox *Mailbox) appendBytes(buf []byte, options *imap.AppendOptions) *imap.AppendData {
+	mbox.mutex.Lock()
+	defer mbox.mutex.Unlock()
+	return mbox.appendBytesLocked(buf, options)
+}
+
+func (mbox *Mailbox) appendBytesLocked(buf []byte, options *imap.AppendOptions) *imap.AppendData {
 	msg := &message{
 		flags: make(map[imap.Flag]struct{}),
 		buf:   buf,
@@ -138,9 +161,6 @@ func (mbox *Mailbox) appendBytes(buf []byte, options *imap.AppendOptions) *imap.
 	for _, flag := range options.Flags {
 		msg.flags[canonicalFlag(flag)] = struct{}{}
 	}
-
-	mbox.mutex.Lock()
-	defer mbox.mutex.Unlock()
 
 	msg.uid = mbox.uidNext
 	mbox.uidNext++
